@@ -4,7 +4,7 @@ import common, cborgen
 THEOREMS = ["C07_read_unsigned", "C07_read_negative", "C07_read_integer", "C07_read_bool", "C07_read_string_definite",
             "C07_read_string_chunked", "C07_container_start_definite", "C07_container_start_indefinite", "C07_read_break",
             "C07_skip", "C07_any_position", "C07_nonvacuous"]
-EXTRA_PROPERTY_FILES = ("Properties_format",)   # obligations over the regenerated Gen_format.v (translator/format.py)
+EXTRA_PROPERTY_FILES = ("Properties_format", "Properties_decoder")   # obligations over the regenerated Gen_format.v (translator/format.py)
 W = 65535
 
 def pad_prefix(pos):
